@@ -318,6 +318,8 @@ func runC06(c *an.Ctx) {
 			}
 		}
 		c.Check(!early, "C06.c", "sentinel-no-early-return", "for the stop sentinel every exit of the flush closure has flushed", closure, nil, "", nil)
+		checkStopKeepsLoopContext(c, "C06.c")
+		checkWriteLoopContextDetached(c, "C06.c")
 	}
 
 	// --- C06.d dangling pointers
@@ -463,12 +465,19 @@ func checkEnsureInit(c *an.Ctx, id string) {
 			"ensureInit initialises the "+field+" pointer whenever it is unset and headers were appended, independent of any other state", fn, call,
 			"other guards: "+strings.Join(extra, ", "), ff.AtRefined(call.Block()))
 		val := ""
+		okLowest := false
 		if al, isAl := call.Call.Args[2].(*ssa.Alloc); isAl {
 			for _, s := range an.AllocStores(al) {
 				val = an.Stable(t.Of(s.Val))
+				okLowest = lowestOfBatch(t, ff, s.Val, "p1")
 			}
 		}
-		c.Check(val == want[field], id, "ensure-init-value:"+field, "ensureInit adopts the last appended header as head and the first as tail", fn, call, "value "+val, nil)
+		_ = want
+		// both pointers start at the LOWEST header of the batch — the batch may come in any order and
+		// with gaps; the last header as head puts Head above a gap, the first as tail can put Tail above
+		// Head (finding F23) — and the head is then advanced over what is contiguous by the write loop's
+		// next step (C04.c pointer-move-unconditional)
+		c.Check(okLowest, id, "ensure-init-value:"+field, "ensureInit starts both pointers of an empty store at the lowest header of the batch (the head is advanced over the contiguous run afterwards)", fn, call, "value "+val, nil)
 	})
 	for _, f := range []string{"contiguousHead", "tailHeader"} {
 		if !seen[f] {
